@@ -70,6 +70,7 @@ type RunCfg struct {
 	QuickRestart     int    // if > 0: the operator restarts after QuickRestart-1 steps of the orphans\' reactions
 	LinkDirs         bool   // stages may report outputs through a symlinked sub-directory of files/
 	DirOutputs       bool   // a file-typed output may be a directory holding several files
+	OutKinds         bool   // a file-typed output may be missing, a symlink, or a path outside the pipestance (C13)
 	Companions       bool   // stages may write x.idx next to an output file x
 	ChunkRes         bool   // splits return per-chunk resource requests
 	SlowLabel        string // tasks whose label contains this get SlowDiv times less weight
@@ -107,6 +108,7 @@ type Run struct {
 	Files         map[string]*FileRec // files written by stage code, by (real) path
 	Logical       map[string]string   // reported path -> real path, where they differ
 	Dirs          map[string][]string // directory-valued outputs: reported path -> files written below it
+	ExtFiles      map[string]string   // files outside the pipestance (pre-existing data): path -> content
 	Start         time.Time
 	SimTime       time.Duration
 	ExitCodes     []int
@@ -133,6 +135,8 @@ type FileRec struct {
 	InDir   string // the directory-valued output this file belongs to
 	Logical string // the path the stage reported, when it differs (through a symlinked directory)
 	Tmp     bool   // in the job's temporary directory
+	Kind    string // "" regular file; "missing" (named, never created); "symlink"; "outside" (a path outside the pipestance)
+	Target  string // for symlinks: the file finally pointed at
 }
 
 // ClusterJob is a job handed to the simulated cluster scheduler (qsub).
@@ -383,7 +387,7 @@ func SetupBase(root, repo string) error {
 
 func NewRun(cfg *RunCfg) *Run {
 	r := &Run{Cfg: cfg, Prog: cfg.Prog, FCfg: cfg.FCfg, Root: cfg.Root,
-		Probes: map[string]int{}, Faults: map[string]int{}, Files: map[string]*FileRec{}, Logical: map[string]string{}, Dirs: map[string][]string{}}
+		Probes: map[string]int{}, Faults: map[string]int{}, Files: map[string]*FileRec{}, Logical: map[string]string{}, Dirs: map[string][]string{}, ExtFiles: map[string]string{}}
 	r.PsDir = path.Join(cfg.Root, "ps")
 	r.MroDir = path.Join(cfg.Root, "mro")
 	return r
@@ -524,6 +528,7 @@ func (r *Run) Execute() {
 	cfg := r.Cfg
 	os.RemoveAll(r.PsDir)
 	os.RemoveAll(r.MroDir)
+	os.RemoveAll(path.Join(r.Root, "ext"))
 	if err := r.writeProgram(r.Prog); err != nil {
 		r.violate("SIM", "setup", err.Error())
 		return
